@@ -26,3 +26,8 @@ def run(chk, replay):
     if not replay:
         import p_c08
         p_c08.agent_level(chk, PROP, 40 if chk.tier == "quick" else 400)
+        # repeating steps under limit pressure: the slot of a step that waits out its repeat interval (lib/c15_repeat.py;
+        # last, so that the PRNG sequences of the streams above are what they were). Replays of its cases have the
+        # shared stream's format and go through sched.run_stream above.
+        import c15_repeat
+        c15_repeat.run(chk, PROP)
